@@ -631,7 +631,7 @@ func (c *Ctx) bodyTotal(s readSite) (total ssa.Value, how, why string) {
 			okCall := false
 			if g != nil && g.Blocks != nil && c.P.IsLibrary(g) {
 				for j, a := range x.Call.Args {
-					if !sameVal(a, bound) || j >= len(g.Params) {
+					if _, isInt := a.Type().Underlying().(*types.Basic); !isInt || j >= len(g.Params) || !(sameVal(a, bound) || leq(a, bound, 0)) {
 						continue
 					}
 					pj := g.Params[j]
